@@ -57,8 +57,100 @@ def jWord : Word Int → Json
   | .len n => jNat n
   | .val t => jInt t
 
+/-- a source of a session file: `saved` (tokens as Python printed them with '%.18g', header), `delimited`
+(tokens, one list of separators per row), `other` (any text) -/
+def asSrc (j : Json) : R (Src String) := do
+  match (← getStr j "kind") with
+  | "saved" =>
+    let (_, _, img) ← getImg j
+    pure (.saved (← getStr j "header").toList img)
+  | "delimited" =>
+    let (_, _, img) ← getImg j
+    pure (.delimited (← getList (asList asChar) j "seps") img)
+  | "other" => pure (.other (← getStr j "text").toList)
+  | k => throw s!"unknown source kind {k}"
+
+def srcImg : Src String → List (List String)
+  | .saved _ img => img
+  | .delimited _ img => img
+  | .other _ => []
+
+def jReply : Reply String → Json
+  | .done => jObj [("done", jBool true)]
+  | .missing => jObj [("missing", jBool true)]
+  | .raised => jObj [("loaded", jObj [("raises", jBool true)])]
+  | .loaded l => jObj [("loaded", jObj [("shape", jList jNat l.shape), ("fields", jList jStr l.data)]),
+                       ("name", jOpt (fun n => jStr (String.ofList n)) l.field)]
+
+/-- the image the property demands for the load at position `i`, when it says so and the hypotheses of
+`session_loads` hold for the file's source (`Src.ok`, clean tokens) -/
+def expectedAt (cs : List (Call String)) (i : Nat) : Json :=
+  match cs[i]? with
+  | some (.load p d _) =>
+    match lastPut p (cs.take i) with
+    | some s =>
+      match s.image? d with
+      | some img =>
+        if s.ok && (srcImg s).all (·.all tokenClean) then
+          jObj [("shape", jList jNat [img.length, (img.headD []).length]), ("fields", jList jStr img.flatten)]
+        else .null
+      | none => .null
+    | none => .null
+  | _ => .null
+
+/-- the 8 bytes of a float64 given as its bit pattern (a signed 64-bit token), lowest first -/
+def tokBytes (t : Int) : List Nat := le64 (t % 18446744073709551616).toNat
+
+/-- the bit-pattern token of 8 bytes, lowest first -/
+def bytesTok (g : List Nat) : Int :=
+  let n := ofLe64 g
+  if n < 9223372036854775808 then (n : Int) else (n : Int) - 18446744073709551616
+
+def hexDigit (d : Nat) : Char := if d < 10 then Char.ofNat (48 + d) else Char.ofNat (87 + d)
+
+def hexOf (bs : List Nat) : String := String.ofList (bs.flatMap fun b => [hexDigit (b / 16), hexDigit (b % 16)])
+
+def hexVal (c : Char) : R Nat :=
+  if 48 ≤ c.toNat ∧ c.toNat ≤ 57 then pure (c.toNat - 48)
+  else if 97 ≤ c.toNat ∧ c.toNat ≤ 102 then pure (c.toNat - 87)
+  else throw s!"bad hex digit {c}"
+
+def unhex : List Char → R (List Nat)
+  | [] => pure []
+  | [_] => throw "odd number of hex digits"
+  | a :: b :: r => do
+    let x ← hexVal a
+    let y ← hexVal b
+    pure ((x * 16 + y) :: (← unhex r))
+
 def handle (op : String) (req : Json) : R Json := do
   match op with
+  | "c16.session" =>
+    -- several save / load calls in one process.  `steps`: puts (with the abstract source and `real`, the characters
+    -- found in the file afterwards) and loads (path, delimiter or null, name or null)
+    let steps ← getList (fun j => do
+      match (← getStr j "op") with
+      | "put" =>
+        let src ← fld j "src" >>= asSrc
+        pure ((Call.put (← getNat j "path") src : Call String), some (← getStr j "real").toList)
+      | "load" =>
+        pure ((Call.load (← getNat j "path") (← fld j "delimiter" >>= asOpt asChar)
+                ((← fld j "name" >>= asOpt asStr).map String.toList) : Call String), none)
+      | o => throw s!"unknown step {o}") req "steps"
+    let cs := steps.map (·.1)
+    -- the same calls with every file holding the characters really found in it
+    let csReal := steps.map fun (c, real) => match c, real with
+      | .put p _, some t => Call.put p (.other t)
+      | c, _ => c
+    let spec := sessionSpec tokFmt String.ofList cs
+    let mech := runSession tokFmt String.ofList [] cs
+    let real := runSession tokFmt String.ofList [] csReal
+    let rendered := cs.map fun c => match c with
+      | .put _ s => jStr (String.ofList (s.text tokFmt))
+      | .load _ _ _ => .null
+    pure (jObj [("spec", jList jReply spec), ("mech", jList jReply mech), ("real", jList jReply real),
+                ("rendered", .arr rendered.toArray),
+                ("expected", .arr ((List.range cs.length).map (expectedAt cs)).toArray)])
   | "c16.text" =>
     -- `file`: the characters pewlib's `save` wrote; `tokens`: the values printed with '%.18g' by Python
     let (r, c, img) ← getImg req
@@ -136,21 +228,37 @@ def handle (op : String) (req : Json) : R Json := do
       ("blocks", jList (fun (b : List Int) => jBlock (some (b.length * 8, b))) specBlocks),
       ("appended", jList jWord (appended specBlocks))]
     let okB := headOkB endian spacing (fields.map (·.name))
+    let little := endian == endianName true
     -- the Lean reader on the real header text (null: the text is outside the subset the reader handles)
-    let realMeta := if inReaderSubset realHead then jOpt jMeta (vtkParse realHead) else .null
+    let realParsed := if inReaderSubset realHead then vtkParse realHead else none
+    let realMeta := jOpt jMeta realParsed
+    -- ... and on the real appended bytes (`body`: hex, or null when the harness does not send them): the block
+    -- found at every offset the real header declares
+    let realBody ← fld req "body" >>= asOpt (fun j => do unhex (← asStr j).toList)
+    let realBlocks := match realParsed, realBody with
+      | some m, some bytes => jList (fun (a : ArrayMeta) =>
+          jBlock ((readBlockBytes little bytes a.offset).map fun (n, gs) => (n, gs.map bytesTok))) m.arrays
+      | _, _ => .null
     match vtkRender endian spacing img with
     | none =>
       pure (jObj [("rendered", .null), ("model", jObj [("raises", jBool true)]), ("spec", specSide),
-                  ("head_ok", jBool okB), ("real_meta", realMeta)])
+                  ("head_ok", jBool okB), ("real_meta", realMeta), ("real_blocks", realBlocks)])
     | some file =>
+      -- the bytes of the appended section as the model writes them (every word in the machine's byte order)
+      let bytes := bodyBytes little tokBytes file.body
       let modelSide := match vtkParse file.head with
         | none => jObj [("unreadable", jBool true)]
         | some m => jObj [("meta", jMeta m),
             ("blocks", jList (fun (a : ArrayMeta) => jBlock (readBlock file.body a.offset)) m.arrays),
+            -- the byte-level reader on the model's own bytes: equal to `blocks` by theorem `vtk_bytes_read_back`
+            ("byte_blocks", jList (fun (a : ArrayMeta) =>
+              jBlock ((readBlockBytes little bytes a.offset).map fun (n, gs) => (n, gs.map bytesTok))) m.arrays),
             ("appended", jList jWord file.body)]
       pure (jObj [
-        ("rendered", jObj [("head", jS file.head), ("words", jList jWord file.body), ("tail", jS file.tail)]),
-        ("model", modelSide), ("spec", specSide), ("head_ok", jBool okB), ("real_meta", realMeta)])
+        ("rendered", jObj [("head", jS file.head), ("words", jList jWord file.body), ("body_hex", jStr (hexOf bytes)),
+                           ("tail", jS file.tail)]),
+        ("model", modelSide), ("spec", specSide), ("head_ok", jBool okB), ("real_meta", realMeta),
+        ("real_blocks", realBlocks)])
   | _ => throw s!"unknown op {op}"
 
 end PewDriver.C16
